@@ -346,6 +346,26 @@ func genC03(r *Rng, tier string, emit func(string, Tok)) {
 		}
 		emit("gap-before-unit-start", scenario{kind: r.Intn(3), optSize: 188, fault: -1, data: d, ops: ops(r)}.tok())
 	}
+	// a payload unit that starts right after a loss (continuity counter jumps on a PUSI packet) or on a packet whose
+	// adaptation field signals a discontinuity: the accumulator is reset and hands out an empty flushed set
+	for k := 0; k < scale(tier, 16, 160); k++ {
+		m := randStream(r, true)
+		data := m.bytes()
+		seen := map[int]bool{}
+		for off := 0; off+188 <= len(data); off += 188 {
+			p := data[off : off+188]
+			pid := int(p[1]&0x1f)<<8 | int(p[2])
+			if p[1]&0x40 != 0 && seen[pid] && r.Chance(1, 2) {
+				if p[3]&0x20 != 0 && p[4] > 0 && r.Bool() {
+					p[5] |= 0x80 // discontinuity_indicator
+				} else {
+					p[3] = p[3]&0xf0 | (p[3]+byte(r.Range(2, 14)))&0x0f
+				}
+			}
+			seen[pid] = true
+		}
+		emit("pusi-after-loss", scenario{kind: r.Intn(3), optSize: []int{0, 188}[r.Intn(2)], fault: -1, chunks: []int{r.Range(1, 500)}, data: data, ops: ops(r)}.tok())
+	}
 	// truncation at every offset of a small stream
 	m := genRefStream(r, streamOpts{PESPIDs: 1, UnitsPerPID: 2, MaxPES: 200, Tables: true})
 	data := m.bytes()
